@@ -448,13 +448,15 @@ class GIRParser(object):
         self._namespace.track(func)
         return func
 
+    def _find_field_children(self, node):
+        names = (_corens('field'), _corens('record'), _corens('union'), _corens('callback'))
+        return [child for child in node if child.tag in names]
+
     def _parse_fields(self, node, obj):
         res = []
-        names = (_corens('field'), _corens('record'), _corens('union'), _corens('callback'))
-        for child in node:
-            if child.tag in names:
-                fieldobj = self._parse_field(child, obj)
-                res.append(fieldobj)
+        for child in self._find_field_children(node):
+            fieldobj = self._parse_field(child, obj)
+            res.append(fieldobj)
         return res
 
     def _parse_compound(self, cls, node):
@@ -480,9 +482,11 @@ class GIRParser(object):
                 func.is_method = True
                 func.is_inline = True
                 compound.methods.append(func)
-            for i, fieldnode in enumerate(self._find_children(node, _corens('field'))):
-                field = compound.fields[i]
-                self._parse_type_array_length(compound.fields, fieldnode, field.type)
+            # compound.fields also holds the anonymous <record>/<union> members,
+            # so pair each field with the element it was parsed from
+            for field, fieldnode in zip(compound.fields, self._find_field_children(node)):
+                if fieldnode.tag == _corens('field'):
+                    self._parse_type_array_length(compound.fields, fieldnode, field.type)
             for func in self._find_children(node, _corens('function')):
                 compound.static_methods.append(
                     self._parse_function_common(func, ast.Function, compound))
